@@ -19,7 +19,7 @@ from dlv.core import ShardCtx, ShardResult
 PROPERTY = 'C18'
 LEVEL = 'fault_enumeration'
 RULE = ('clean sessions: template x supported mode x option vector (drm, timeline, abr, acodec, base, events, patch, mup) x '
-        'clock x stream; corrupted sessions: the same plus one fault from the catalogue {tfdt +/- one segment, mfhd +/- 1, '
+        'clock x stream {bbb fixture; miv = 8 byte IV video + audio re-packaged with 16 byte IVs}; corrupted sessions: the same plus one fault from the catalogue {tfdt +/- one segment, mfhd +/- 1, '
         'trun data_offset beyond mdat, saio offset +/- 8, mvhd / trex / tenc removed from init, one S removed / shifted, '
         'availabilityStartTime / publishTime / minBufferTime / profiles removed, availabilityStartTime changed on refresh, '
         'HTTP 404 for one segment, wrong Content-Type} applied to one eligible response. Non-trivial = the validator ran to '
